@@ -1297,7 +1297,9 @@ RULES = ['assign_let', 'assign_param', 'call_arity', 'call_kind', 'undef_name', 
          'cond_nonbool', 'ret_kind', 'match_missing', 'unknown_exc',
          # D11
          'branch_tuple', 'branch_range', 'branch_elem', 'tuple_arity', 'tuple_index', 'array_ragged', 'forin_iter_assign',
-         'pipe_arity', 'pipe_tuple_arity', 'match_after_else', 'elem_long_double']
+         'pipe_arity', 'pipe_tuple_arity', 'match_after_else', 'elem_long_double',
+         # round 2
+         'empty_unit', 'func_noname']
 
 
 class Mutator:
@@ -1915,6 +1917,26 @@ class Mutator:
         site.seq.a[0].insert(site.idx, bad)
         site.seq.a[0].insert(site.idx, f)
         return Mutant('elem_long_double', self.p, bad, 'callMismatch', site.path, "%s as %s, form %d" % (b, a, form))
+
+    def empty_unit(self):
+        """every function deleted: a main unit of declarations only (bad4904)"""
+        if not self.p.decls:
+            return None
+        del self.p.funcs[:]
+        marker = N('sub', [])
+        marker.ln = 1
+        return Mutant('empty_unit', self.p, marker, 'emptyMainUnit', ['top'], "%d declarations left" % len(self.p.decls))
+
+    def func_noname(self):
+        """a function ITEM (top level or in a block) loses its name (0b116cb)"""
+        fs = [(f, path) for f, path in self.g.funcs if f.name]
+        if not fs:
+            return None
+        top = [(f, path) for f, path in fs if any(f is t for t in self.p.funcs)]
+        f, path = self.rng.choice(top) if top and self.rng.chance(0.4) else self.rng.choice(fs)
+        note = f.name
+        f.name = None
+        return Mutant('func_noname', self.p, f, 'funcNoName', path[:-1] or ['top'], note)
 
     # -- known acceptances of the tree (corpus/tc_known), as mutators: KNOWN-FINDING while accepted
     def slice_assign_let(self):
